@@ -93,13 +93,42 @@ def make_queries(g, rng):
     return q, C("ans", V("LL"), *args)
 
 
+def group_corpus():
+    """bagof/setof over facts whose witness holds a variable the generator leaves unbound next to a part that varies in an
+    interleaved, unsorted order (the groups must still be merged: the witness variables are unified before the sort), with
+    the free variable before/after/inside the varying part, and templates of one or two variables.  No ^ (known finding)."""
+    V, C, A, I = S.V, S.C, S.A, S.I
+    out = []
+    n = 0
+    for zs in (["b", "a", "b"], ["a", "b", "a"], ["b", "b", "a"], ["c", "a", "c", "b", "a"], ["a", "a", "a"]):
+        for shape in ("var_first", "var_last", "var_in_struct", "no_var", "shared_var"):
+            name = "cb%d_p" % n; n += 1
+            prog = []
+            for k, z in enumerate(zs):
+                anon = V("_A%d" % k)
+                if shape == "var_first": args = [I(k + 1), anon, A(z)]
+                elif shape == "var_last": args = [I(k + 1), A(z), anon]
+                elif shape == "var_in_struct": args = [I(k + 1), C("f", anon, A(z)), A("w")]
+                elif shape == "no_var": args = [I(k + 1), A("w"), A(z)]
+                else: args = [I(k + 1), C("g", anon), C("h", anon, A(z))]
+                prog.append((C(name, *args), S.TRUE))
+            X, Y, Z, Lv = V("X"), V("Y"), V("Z"), V("L")
+            qs = []
+            for pred in ("bagof", "setof"):
+                qs.append((C(pred, X, C(name, X, Y, Z), Lv), C("ans", Lv, Y, Z)))
+                qs.append((C(pred, C("-", X, Y), C(name, X, Y, Z), Lv), C("ans", Lv, Z)))
+            qs.append((C("findall", C("-", Lv, Z), C("bagof", X, C(name, X, Y, Z), Lv), V("LL")), C("ans", V("LL"))))
+            out.append((prog, qs))
+    return out
+
+
 def run(ctx):
     nprog = ctx.scale(320, 9000)
     ev, nontrivial, dist, failures, tie_breaks, samples = S.run_differential(
-        ctx, FEATS, nprog, check_fn="check_run", log=True, make_queries=make_queries, key_fn=key_fn, est_limits=(80, 1500),
+        ctx, FEATS, nprog, check_fn="check_run", log=True, make_queries=make_queries, key_fn=key_fn, est_limits=(80, 1500), corpus=group_corpus(),
         nontrivial_fn=lambda prog, q, o: (contains(q, ALLSOL) or any(contains(b, ALLSOL) for _, b in prog)) and bool(o[1] or o[2] is not None))
     return {"evaluations": ev, "distinct_nontrivial": len(nontrivial),
-            "rule": ("random programs over the C07 control constructs plus findall/3, findall/4, bagof/3, setof/3 (with ^ and free variables), forall/2, "
+            "rule": ("a fixed corpus of 25 bagof/setof grouping programs (witness with an unbound variable before/after/inside a part that varies in interleaved order), then random programs over the C07 control constructs plus findall/3, findall/4, bagof/3, setof/3 (with ^ and free variables), forall/2, "
                      "catch/throw and log/1 in clause bodies (nested all-solutions calls arise from nesting <= 3); queries: generator queries, "
                      "findall/bagof/setof over a program predicate with templates sharing variables with goal and context, findall inside findall, forall, "
                      "and catch(findall(.., (Goal, (X == K -> throw(stop(X)) ; true)), L1), stop(B), ..), findall(.., Goal, L2) (no residue after an exception "
